@@ -1079,6 +1079,12 @@ def criteria_parser(criteria):
             if check is not None:
                 return check
 
+        elif op == operator.ne:
+            # "<>a*" is the complement of "=a*"
+            check = build_wildcard_re(value)
+            if check is not None:
+                return lambda x: not check(x)
+
         if is_number(value):
             value = coerce_to_number(value)
 
